@@ -11,9 +11,9 @@ declare -A CHK=(
 cd /repo || exit 2
 git diff --quiet || { echo "/repo has uncommitted changes" >&2; exit 2; }
 CHK[r2-C04]="C04 C01 C02"; CHK[r2-C05]="C05 C03"; CHK[r2-C11]="C11 C10"; CHK[r2-C12]="C12 C04 C02"; CHK[r2-C15]="C15 C13"
-for id in $(ls /verif/seeded | grep -E '^(r2-)?C[0-9][0-9]$'); do
+for id in $(ls /verif/seeded | grep -E '^(r[23]-)?C[0-9][0-9]$'); do
   git apply /verif/seeded/$id/patch.diff || { echo "{\"seeded\":\"$id\",\"error\":\"patch does not apply\"}" >> "$OUT"; continue; }
-  for c in ${CHK[$id]:-${CHK[${id#r2-}]}}; do
+  for c in ${CHK[$id]:-${CHK[${id#r?-}]}}; do
     out=$(cd /verif && VERIF_SEED=$SEED ./check "$c" --tier quick 2>&1); rc=$?
     sigs=$(echo "$out" | grep '^VIOLATION' | sed 's/.*replay=//' | while read f; do python3 -c "import json,sys; print(json.load(open(sys.argv[1]))['signature'].get('check','?'))" "$f" 2>/dev/null; done | sort -u | tr '\n' ',' )
     nv=$(echo "$out" | grep -c '^VIOLATION')
